@@ -15,6 +15,7 @@ import (
 
 	"go.uber.org/goleak"
 
+	"github.com/form3tech-oss/f1/v2/internal/metrics"
 	"github.com/form3tech-oss/f1/v2/internal/verifhook"
 	"github.com/form3tech-oss/f1/v2/pkg/f1"
 	f1testing "github.com/form3tech-oss/f1/v2/pkg/f1/testing"
@@ -238,6 +239,17 @@ func init() {
 				truthS.Add(1)
 			}
 		}
+		// pushgw=ok|fail1|down: PROMETHEUS_PUSH_GATEWAY points at a gateway on the loopback interface (this also switches
+		// the iteration metrics on, as in production); static=1: the F1 instance gets three static metric labels
+		var gw *fakeGateway
+		if mode, ok := p["pushgw"]; ok {
+			gw = newFakeGateway(mode)
+			defer gw.srv.Close()
+			os.Setenv("PROMETHEUS_PUSH_GATEWAY", gw.srv.URL)
+			defer os.Unsetenv("PROMETHEUS_PUSH_GATEWAY")
+		}
+		staticLabels := map[string]string{"zone": "primary", "zone2": "secondary", "team": "x"}
+		metricsFresh := metrics.Instance() == nil // the process-wide instance is built once, by the first command
 		sh := &summaryHandler{}
 		topFn := f1testing.ScenarioFn(scenarioFn)
 		var laterRan atomic.Int64
@@ -247,6 +259,9 @@ func init() {
 			})
 		}
 		app := f1.New().WithLogger(slog.New(sh)).Add("s", topFn)
+		if p["static"] == "1" {
+			app = app.WithStaticMetrics(staticLabels)
+		}
 		// ticks accepted by the trigger pool (yield point pool.trigger.accepted)
 		var ticks atomic.Int64
 		verifhook.Set(func(point string) {
@@ -323,6 +338,25 @@ func init() {
 		if e == 1 && setups.Load() == 0 {
 			verdict = "reject"
 		}
+		// what reached the gateway with the last accepted push: counts per result, and the labels of every series
+		pushed, labels := "-", "-"
+		if gw != nil {
+			pg, acc := gw.counts()
+			pushed = fmt.Sprintf("%d/%d/%d/%d", pg.succ, pg.fail, pg.dropped, acc)
+			if !metricsFresh {
+				pushed = "skip" // whether iteration metrics exist at all was decided by the first command of this process
+			}
+			if p["static"] == "1" {
+				switch {
+				case !metricsFresh:
+					labels = "skip" // an earlier command of this process built the metrics instance with its own labels
+				case acc == 0:
+					labels = "nopush"
+				default:
+					labels = gw.checkLabels("s", staticLabels)
+				}
+			}
+		}
 		leak := 0
 		if p["leakcheck"] == "1" {
 			if err := goleak.Find(leakBase, goleak.IgnoreTopFunction("time.Sleep")); err != nil {
@@ -332,9 +366,9 @@ func init() {
 				}
 			}
 		}
-		return fmt.Sprintf("%s err=%d banner=%s stats=%d/%d/%d truth=%d/%d setups=%d started=%d maxflight=%d ret=%d envAfter=%s ticks=%d later=%d leak=%d",
+		return fmt.Sprintf("%s err=%d banner=%s stats=%d/%d/%d truth=%d/%d setups=%d started=%d maxflight=%d ret=%d envAfter=%s ticks=%d later=%d leak=%d pushed=%s labels=%s",
 			verdict, e, banner, st["successful"], st["failed"], st["dropped"], truthS.Load(), truthF.Load(), setups.Load(),
-			started.Load(), maxflight.Load(), ret.Milliseconds(), envAfter, ticks.Load(), laterRan.Load(), leak)
+			started.Load(), maxflight.Load(), ret.Milliseconds(), envAfter, ticks.Load(), laterRan.Load(), leak, pushed, labels)
 	})
 }
 
